@@ -34,7 +34,9 @@ type HeaderSpec struct {
 	Size    int    `json:"size"` // 12 | 14
 	Proto   byte   `json:"proto"`
 	Profile uint16 `json:"profile"`
-	HCRC    string `json:"hcrc,omitempty"` // ok | zero | bad   (size 14 only)
+	HCRC    string `json:"hcrc,omitempty"` // ok | zero | bad | val (size 14 only)
+	HCRCVal uint16 `json:"hcrc_val,omitempty"` // stored CRC when hcrc == "val"
+	DType   string `json:"dtype,omitempty"`    // data type bytes (default ".FIT")
 }
 
 type RecStream struct {
@@ -155,6 +157,9 @@ func frameBytes(hs HeaderSpec, data []byte, fcrc string) []byte {
 	put16(h[2:4], false, hs.Profile)
 	putN(h[4:8], false, uint64(len(data)))
 	copy(h[8:12], ".FIT")
+	if len(hs.DType) == 4 {
+		copy(h[8:12], hs.DType)
+	}
 	if size == 14 {
 		c := crc16(h[:12])
 		switch hs.HCRC {
@@ -165,6 +170,8 @@ func frameBytes(hs HeaderSpec, data []byte, fcrc string) []byte {
 			if c == 0 {
 				c = 0x0101
 			}
+		case "val":
+			c = hs.HCRCVal
 		}
 		h = append(h, byte(c), byte(c>>8))
 	}
